@@ -74,6 +74,11 @@ fn pascal_ident(rng: &mut Rng) -> String {
             for _ in 0..k {
                 s.push((b'a' + rng.below(26) as u8) as char);
             }
+            // a digit at the end of a word ("V2Beta", "Utf8Lossy"): camelCase of a PascalCase identifier only
+            // lowers the first letter, whatever follows a digit keeps its case
+            if rng.chance(1, 6) {
+                s.push((b'0' + rng.below(10) as u8) as char);
+            }
             s
         })
         .collect::<Vec<_>>()
